@@ -8,8 +8,10 @@ class FactFlow:
     """Propagates facts {(name, truthy)} along CFG edges; used to discard infeasible paths
     such as `if m: ... else: ...` followed later by `if not m:`."""
 
-    def __init__(self, cfg):
+    def __init__(self, cfg, prune=False):
         self.cfg = cfg
+        self.prune = prune          # drop facts about names that are not tested again before they are re-bound
+        self._live = None
         self.fact_vars = set()
         for n in cfg.nodes:
             if n.kind == 'test':
@@ -48,7 +50,31 @@ class FactFlow:
             return facts | {(key, False)}
         return facts
 
+    GROWS = ('append', 'add', 'insert', 'appendleft')
+    MUTATES = GROWS + ('pop', 'popleft', 'remove', 'clear', 'extend', 'update', 'discard', 'popitem', 'setdefault',
+                       'sort', 'reverse', 'difference_update', 'intersection_update')
+
     def out_facts(self, node, facts):
+        """facts after executing ``node``: assignments, then mutation of a container through one of its methods (a list
+        that was empty when it was created is not known to be empty after ``x.append(..)``)."""
+        facts = self._out_facts0(node, facts)
+        a = node.ast
+        if a is None or node.kind not in ('stmt',) or isinstance(a, (ast.FunctionDef, ast.AsyncFunctionDef, ast.ClassDef)):
+            return facts
+        for n in ast.walk(a):
+            if isinstance(n, ast.Call) and isinstance(n.func, ast.Attribute) and isinstance(n.func.value, ast.Name) \
+                    and n.func.attr in self.MUTATES and n.func.value.id in self.fact_vars:
+                name = n.func.value.id
+                facts = self._kill(facts, {name})
+                if n.func.attr in self.GROWS:
+                    facts = facts | {(name, True), (name + '#isnone', False)}
+            elif isinstance(n, ast.Delete):
+                for t in n.targets:
+                    if isinstance(t, ast.Subscript) and isinstance(t.value, ast.Name) and t.value.id in self.fact_vars:
+                        facts = self._kill(facts, {t.value.id})
+        return facts
+
+    def _out_facts0(self, node, facts):
         """facts after executing ``node`` (for non-test nodes)."""
         a = node.ast
         if node.kind in ('next0', 'next'):
@@ -81,7 +107,7 @@ class FactFlow:
             if keep:
                 facts = facts | {keep}
             if len(a.targets) == 1 and isinstance(a.targets[0], ast.Name) and a.targets[0].id in self.fact_vars:
-                t = const_truth(a.value)
+                t = const_truth(a.value, mutable_ok=True)     # method calls on the name are tracked in out_facts
                 if t is not None:
                     facts = facts | {(a.targets[0].id, t)}
             return facts
@@ -102,8 +128,62 @@ class FactFlow:
         names = {n.target.id for n in ast.walk(a) if isinstance(n, ast.NamedExpr) and isinstance(n.target, ast.Name)}
         return self._kill(facts, names) if names else facts
 
+    def _tested_name(self, node):
+        e = node.ast
+        if node.kind != 'test':
+            return None
+        if isinstance(e, ast.Name):
+            return e.id
+        if isinstance(e, ast.Compare) and len(e.ops) == 1 and isinstance(e.left, ast.Name) \
+                and isinstance(e.ops[0], (ast.Is, ast.IsNot)) \
+                and isinstance(e.comparators[0], ast.Constant) and e.comparators[0].value is None:
+            return e.left.id
+        return None
+
+    def live(self):
+        """node -> names whose facts can still decide a test on some way onwards (backward liveness: a test of the
+        name is a use, anything that changes its facts a definition).  Facts about other names cannot prune a path."""
+        if self._live is not None:
+            return self._live
+        probe = frozenset((v + '#probe', True) for v in self.fact_vars)
+        kill, gen = {}, {}
+        for n in self.cfg.nodes:
+            if n.kind == 'test':
+                kill[n] = set()
+            else:
+                left = {x[0].split('#')[0] for x in self.out_facts(n, probe) if x[0].endswith('#probe')}
+                kill[n] = self.fact_vars - left
+            t = self._tested_name(n)
+            gen[n] = {t} if t in self.fact_vars else set()
+            if n.kind != 'test':
+                # a transfer function that looks at the incoming fact (x = x + y keeps a non-empty x non-empty) uses it
+                for v in kill[n]:
+                    if (v, True) in self.out_facts(n, frozenset({(v, True)})) and (v, True) not in self.out_facts(n, frozenset()):
+                        gen[n].add(v)
+        live_in = {n: set(gen[n]) for n in self.cfg.nodes}
+        changed = True
+        while changed:
+            changed = False
+            for n in reversed(self.cfg.nodes):
+                out = set()
+                for s, lab in n.succ:
+                    out |= live_in[s]
+                new = gen[n] | (out - kill[n])
+                if new != live_in[n]:
+                    live_in[n] = new
+                    changed = True
+        self._live = live_in
+        return live_in
+
     def successors(self, node, facts, follow_exc=False):
         """-> [(succ, label, facts')] over feasible edges."""
+        out = self._successors(node, facts, follow_exc)
+        if self.prune:
+            live = self.live()
+            out = [(s, lab, frozenset(x for x in f2 if x[0].split('#')[0] in live[s])) for s, lab, f2 in out]
+        return out
+
+    def _successors(self, node, facts, follow_exc=False):
         out = []
         if node.kind == 'test':
             for s, lab in node.succ:
